@@ -3,7 +3,14 @@
 A=$1
 set -e
 cd /verif
-git merge --no-edit -q agent-$A || { echo "VERIF MERGE CONFLICT"; git status --short | grep '^U\|^AA' ; exit 1; }
+if ! git merge --no-edit -q agent-$A >/dev/null 2>&1; then
+  # generated / per-run files: always keep ours
+  for f in $(git diff --name-only --diff-filter=U); do
+    case $f in evidence/C15.json|coq/_CoqProject|replays/C15/*|harness/go.mod) git checkout --ours -- $f; git add $f;; esac
+  done
+  if [ -n "$(git diff --name-only --diff-filter=U)" ]; then echo "VERIF MERGE CONFLICT"; git diff --name-only --diff-filter=U; exit 1; fi
+  git commit -q --no-edit
+fi
 echo "verif merged: $(git log --oneline -1)"
 cd /repo
 for c in $(git log --reverse --format=%H main..agent-$A); do
